@@ -51,4 +51,25 @@ theorem C11_before {V : Type} (c : Ctl.Cfg) (ss : Nat) (d : V) (chs : Nat → Al
   rw [e, Ctl.run_append, Ctl.stepsFrom_done evs _ (by exact h)]
   rfl
 
+/-! ### non-vacuity: a concrete, non-trivial parameter space and value meet the hypotheses used above -/
+
+/-- an integer with bounds, a resizable map of booleans with size bounds, an optional enum -/
+def exSpec11 : SNode :=
+  .sub (.cons "a" (.int 3 (.fin 4607182418800017408) (some 0) (some 10))
+       (.cons "m" (.amap (.bool false) 2 (some 1) (some 3))
+       (.cons "o" (.opt (.enum ["x", "y"] "x") false) .nil)))
+
+/-- a conforming value that is not the initial one -/
+def exVal11 : VNode :=
+  .sub (.cons "a" (.int 7)
+       (.cons "m" (.amap (.cons 0 (.bool true) (.cons 5 (.bool false) .nil)))
+       (.cons "o" (.osome (.enum "y")) .nil)))
+
+example : wf exSpec11 = true ∧ unambiguous exSpec11 = true ∧ conf exSpec11 exVal11 = true ∧
+    exVal11 ≠ initialValue exSpec11 := by decide
+
+/-- ... so the theorems apply to it: its JSON is read back as the very same value -/
+example (cast : Int → F64) : fromJson cast exSpec11 (toJson exVal11) = .ok exVal11 :=
+  C11_rt_value cast exSpec11 exVal11 (by decide) (by decide) (by decide)
+
 end Cambrian.Props
